@@ -1449,6 +1449,8 @@ func (state *pexState) add(p pex.Peer) {
 		if len(state.pendingDel) == 0 {
 			state.pendingDel = nil
 		}
+		// the remote still knows about this peer
+		state.sent = append(state.sent, p)
 		return
 	}
 
